@@ -75,6 +75,8 @@ def run(chk, tier, seed):
     offenders += ["unclassified syntax: " + k for k, _ in rep.get("unknown", [])]
     chk.cov["offending_items"] = offenders
 
+    if tier == "thorough":
+        sf.thorough_coqchk(chk, ["GAApi.Props.C19"])
     okh, texth, host = sf.host_build()
     chk.correspondence("C19: crate builds (rlib for probes and twin)", okh, texth[-2000:] if not okh else "")
     if not okh:
@@ -152,12 +154,25 @@ def run(chk, tier, seed):
         for g, n, s, d in checks[:4]:
             chk.sample("twin %s %s %s" % (g, n, s))
 
+    if tier == "thorough" and okb:
+        okr2, textr, exe2 = sf.harness_bin("c19_twin", release=True)
+        chk.correspondence("C19: run-time twin builds in release mode", okr2, textr[-1500:] if not okr2 else "")
+        if okr2:
+            rc2, out2 = sf.run_exe(exe2, timeout=120)
+            keep = lambda o: [l for l in o.splitlines() if l.startswith(("CHECK", "SUMMARY"))]
+            same = keep(out2) == keep(out)
+            chk.correspondence("C19: release-mode twin gives the same CHECK lines", same,
+                               "" if same else "\n".join(l for l in keep(out2) if " FAIL " in l)[:1500])
+            chk.evaluations += len(keep(out2))
     if offenders:
         chk.obligation("C19: offending items found by evaluating the checkers per item", False, "\n".join(offenders))
 
 
 def replay(path):
     txt = open(path).read()
+    if "no concrete failing input was found" in txt[:200]:
+        print(txt)   # names the theorem / correspondence that no longer checks; nothing to re-run
+        return 0
     if "# re-run:" in txt:
         okb, textb, exe = sf.harness_bin("c19_twin")
         if not okb:
